@@ -42,3 +42,5 @@ EQUIVALENT.append(('scrub through nan_to_num with explicit zeros', 'phylib/io/mo
 BREAKING.append(('unused templates detected on the first channel only', M, "            empty_templates = np.all(np.all(np.isnan(data), axis=1), axis=1)", "            empty_templates = np.all(np.isnan(data[:, :, 0]), axis=1)", ['C04.D1']))
 BREAKING.append(('templates with ANY NaN are zeroed', M, "            empty_templates = np.all(np.all(np.isnan(data), axis=1), axis=1)", "            empty_templates = np.any(np.any(np.isnan(data), axis=1), axis=1)", ['C04.D1']))
 EQUIVALENT.append(('unused templates via one reduction over both axes', M, "            empty_templates = np.all(np.all(np.isnan(data), axis=1), axis=1)", "            empty_templates = np.isnan(data).all(axis=(1, 2))"))
+BREAKING.append(('scrub gated on float64 dtype only', M, "    if mmap_mode is None:\n", "    if mmap_mode is None and out.dtype == np.float64:\n", ['C04.D1']))
+EQUIVALENT.append(('scrub gated on any floating dtype', M, "    if mmap_mode is None:\n", "    if mmap_mode is None and np.issubdtype(out.dtype, np.floating):\n"))
